@@ -64,6 +64,36 @@ def _range_count(it, fn_node):
     return None
 
 
+def _aligned_params(prog, fn):
+    """Names of fn's parameters that its call in Simulator.run fills with parts of one half (train or test) of the
+    tuple `_run_train_test_split()` returns; empty when that cannot be read off."""
+    run = prog.method("Simulator", "run")
+    names = None
+    for st in ast.walk(run.node):
+        if isinstance(st, ast.Assign) and isinstance(st.targets[0], ast.Tuple) and len(st.targets[0].elts) == 6 and \
+                ast.unparse(st.value) == "self._run_train_test_split()":
+            names = [ast.unparse(e) for e in st.targets[0].elts]
+    if names is None:
+        return set()
+    halves = (set(names[:3]), set(names[3:]))
+    params = [a.arg for a in fn.node.args.args if a.arg != "self"]
+    out = set()
+    for c in ast.walk(run.node):
+        if isinstance(c, ast.Call) and ast.unparse(c.func) == "self.%s" % fn.name and not c.keywords and \
+                len(c.args) <= len(params):
+            got = {}
+            for prm, a in zip(params, c.args):
+                if isinstance(a, ast.Name):
+                    for h, half in enumerate(halves):
+                        if a.id in half:
+                            got[prm] = h
+            for h in (0, 1):
+                grp = {prm for prm, hh in got.items() if hh == h}
+                if len(grp) > 1:
+                    out |= grp if not out else set()
+    return out
+
+
 def check_window(ctx, fn, loop, label, pre_stmts):
     counter = ast.unparse(loop.target)
     cnt = _range_count(loop.iter, fn.node)
@@ -153,6 +183,12 @@ def check_window(ctx, fn, loop, label, pre_stmts):
                         ast.Subscript, ast.IfExp)):
                     srcs.add(a)
         ok_cnt = length in ["len(%s)" % a for a in arrays]
+    if not ok_cnt:
+        # parameters that Simulator.run fills from the same half of the split have one length (R16.3): the count may
+        # be taken from any of them when one of them is sliced
+        group = _aligned_params(ctx.prog, fn)
+        if group and set(arrays) & group:
+            ok_cnt = length in ["len(%s)" % a for a in sorted(group)]
     ctx.check(ok_cnt, "R16.1", "%s: the number of windows is ceil(number of rows / window size)" % label, loop, fn,
               "count is ceil(%s / %s), rows sliced: %s" % (length, size, arrays), construct=label + " count")
     return lo, hi
@@ -399,81 +435,94 @@ def check_no_data_record(ctx):
 
 
 def check_split(ctx):
+    """R16.3 on the four scenarios (ordered / random) x (with / without contexts) of rules/splitform.py."""
+    from . import splitform as SF
     prog = ctx.prog
     fn = prog.method("Simulator", "_run_train_test_split")
     ctx.saw_fn(fn)
-    top = [s for s in fn.node.body if isinstance(s, ast.If) and ast.unparse(s.test) == "self.is_ordered"]
-    if not top:
-        ctx.undecided("R16.3", "ordered/random split branch not found", fn.node, fn,
-                      construct="def _run_train_test_split")
-        return
-    iff = top[0]
-    rets = [r for r in fn.node.body if isinstance(r, ast.Return) and isinstance(r.value, ast.Tuple)
-            and len(r.value.elts) == 6 and all(isinstance(e, ast.Name) for e in r.value.elts)]
-    if not rets:
-        ctx.undecided("R16.3", "return (train d, r, c, test d, r, c) not found", fn.node, fn,
-                      construct="def _run_train_test_split")
-        return
-    R = [e.id for e in rets[-1].value.elts]
-    role = {"self.decisions": (R[0], R[3]), "self.rewards": (R[1], R[4]), "self.contexts": (R[2], R[5])}
-    # ordered
-    sl = {}
-    for st in iff.body:
-        if isinstance(st, ast.Assign):
-            t = ast.unparse(st.targets[0])
-            v = st.value.body if isinstance(st.value, ast.IfExp) else st.value
-            if isinstance(v, ast.Subscript) and isinstance(v.slice, ast.Slice):
-                sl[t] = (ast.unparse(v.value), ast.unparse(v.slice.lower) if v.slice.lower else None,
-                         ast.unparse(v.slice.upper) if v.slice.upper else None)
-    bset = {b for (_, lo, hi) in sl.values() for b in (lo, hi) if b is not None}
-    ok = len(bset) == 1 and len(sl) == 6
-    b = next(iter(bset)) if bset else "?"
-    for src, (tr_name, te_name) in role.items():
-        tr, te = sl.get(tr_name), sl.get(te_name)
-        ok = ok and tr == (src, None, b) and te == (src, b, None)
-    ctx.check(ok, "R16.3", "ordered split: train = rows before one boundary, test = rows from it, for all arrays",
-              iff, fn, "slices %s" % sl, construct="ordered split slices")
-    ti = [st for st in iff.body if isinstance(st, ast.Assign) and ast.unparse(st.targets[0]) == "self.test_indices"]
-    from .pattern import match
-    okti = bool(ti) and (match("[_X_ for _X_ in range(%s, len(self.decisions))]" % b, ti[0].value) is not None or
-                         " ".join(ast.unparse(ti[0].value).split()) == "list(range(%s, len(self.decisions)))" % b)
-    ctx.check(okti, "R16.3", "ordered split: test_indices is the range from the boundary", ti[0] if ti else iff, fn,
-              construct="ordered test_indices")
-    # random
-    calls = [c for c in ast.walk(iff) if isinstance(c, ast.Call) and ast.unparse(c.func) == "train_test_split"]
-    idx_test_names = set()
-    for c in calls:
-        asg = parent(c)
-        targets = [ast.unparse(t) for t in asg.targets[0].elts] if isinstance(asg, ast.Assign) and isinstance(
-            asg.targets[0], ast.Tuple) else []
-        args = [ast.unparse(a) for a in c.args]
-        okp = len(targets) == 2 * len(args) and len(args) >= 3
-        for k, a in enumerate(args):
-            if okp and a in role:
-                okp = (targets[2 * k], targets[2 * k + 1]) == role[a]
-        ctx.check(okp, "R16.3", "random split: unpacking targets pair with the arguments in (train, test) order", c,
-                  fn, "targets %s for arguments %s, returned as %s" % (targets, args, R),
-                  construct="train_test_split(%s) unpacking" % ", ".join(args[1:]))
-        # the first operand is the identity index list, split together with the data
-        idx_ok = False
-        if args and isinstance(c.args[0], ast.Name):
-            for st in ast.walk(fn.node):
-                if isinstance(st, ast.Assign) and ast.unparse(st.targets[0]) == args[0] and (
-                        match("[_X_ for _X_ in range(len(self.decisions))]", st.value) is not None or
-                        ast.unparse(st.value) in ("list(range(len(self.decisions)))",
-                                                  "np.arange(len(self.decisions))")):
-                    idx_ok = True
-        ctx.check(idx_ok and args[1:3] == ["self.decisions", "self.rewards"], "R16.3",
-                  "random split: indices and all data arrays are split by one call", c, fn, "arguments %s" % args,
-                  construct="train_test_split(%s) operands" % ", ".join(args[1:]))
-        if len(targets) >= 2:
-            idx_test_names.add(targets[1])
-    ti2 = [st for st in ast.walk(iff) if isinstance(st, ast.Assign) and
-           ast.unparse(st.targets[0]) == "self.test_indices" and isinstance(st.value, ast.Name) and
-           {st.value.id} == idx_test_names]
-    ctx.check(bool(ti2), "R16.3", "random split: test_indices are the indices returned for the test part", iff, fn,
-              construct="random test_indices")
-    ctx.floor("R16.3", "train_test_split sites", len(calls), 2)
+    scen = SF.scenarios(fn.node)
+    srcs = ("self.decisions", "self.rewards", "self.contexts")
+    n_split_scen = 0
+    for (ordered, has_ctx), s in sorted(scen.items(), key=lambda kv: (not kv[0][0], not kv[0][1])):
+        tag = "%s split, %s contexts" % ("ordered" if ordered else "random", "with" if has_ctx else "without")
+        ret = s.returned
+        if ret is None or ret[0] != "list" or len(ret[1]) != 6:
+            ctx.undecided("R16.3", "%s: return (train d, r, c, test d, r, c) not found" % tag, fn.node, fn,
+                          construct="def _run_train_test_split [%s]" % tag)
+            continue
+        pairs = {src: (ret[1][k], ret[1][k + 3]) for k, src in enumerate(srcs)}
+        ti = s.env.get("self.test_indices")
+        unknown = [SF.show(v) for pr in pairs.values() for v in pr if v[0] == "unknown"]
+        if ti is not None and ti[0] == "unknown":
+            unknown.append(SF.show(ti))
+        if unknown:
+            ctx.undecided("R16.3", "%s: a returned part is not determined: %s" % (tag, unknown[0]), fn.node, fn,
+                          construct="def _run_train_test_split [%s]" % tag)
+            continue
+        live = [x for x in srcs if has_ctx or x != "self.contexts"]
+        none_ok = has_ctx or (pairs["self.contexts"][0][0] == "none" and pairs["self.contexts"][1][0] == "none")
+        detail = "; ".join("%s -> train %s, test %s" % (x, SF.show(pairs[x][0]), SF.show(pairs[x][1])) for x in srcs)
+        if ordered:
+            bset = set()
+            ok = none_ok
+            for x in live:
+                tr, te = pairs[x]
+                ok = ok and tr[0] == "slice" and te[0] == "slice" and tr[1] == x and te[1] == x and \
+                    tr[2] in (None, "0") and te[3] in (None, "len(self.decisions)", "len(%s)" % x) and \
+                    tr[3] is not None and tr[3] == te[2]
+                if tr[0] == "slice":
+                    bset.add(tr[3])
+            ok = ok and len(bset) == 1
+            b = next(iter(bset)) if len(bset) == 1 else "?"
+            ctx.check(ok, "R16.3", "%s: train = rows before one boundary, test = rows from it, for all arrays" % tag,
+                      fn.node, fn, detail, construct="ordered split slices [%s]" % tag)
+            okti = ti is not None and ti[0] == "expr" and _is_range_from(ti[1], b)
+            ctx.check(okti, "R16.3", "%s: test_indices is the range from the boundary" % tag, fn.node, fn,
+                      "test_indices = %s, boundary %s" % (SF.show(ti), b), construct="ordered test_indices [%s]" % tag)
+        else:
+            if s.calls:
+                n_split_scen += 1
+            ok = none_ok and len(s.calls) == 1
+            ks = set()
+            for x in live:
+                tr, te = pairs[x]
+                ok = ok and tr[0] == "split" and te[0] == "split" and tr[1] == "train" and te[1] == "test" and \
+                    tr[2] == te[2] and tr[3] == ("expr", x) and te[3] == ("expr", x) and tr[4] is te[4]
+                if tr[0] == "split":
+                    ks.add(tr[2])
+            ok = ok and len(ks) == len(live)
+            site = s.calls[0][0] if s.calls else fn.node
+            ctx.check(ok, "R16.3", "%s: every returned part is the (train, test) half train_test_split returns for "
+                      "its own array" % tag, site, fn, detail, construct="train_test_split unpacking [%s]" % tag)
+            okti = ti is not None and ti[0] == "split" and ti[1] == "test" and SF.is_identity_index(ti[3]) and \
+                len(s.calls) == 1 and ti[4] is s.calls[0][0] and all(
+                    pairs[x][0][0] == "split" and pairs[x][0][4] is ti[4] for x in live)
+            ctx.check(okti, "R16.3", "%s: test_indices is the test half of the identity index list, split by the "
+                      "same call as the data" % tag, site, fn, "test_indices = %s" % SF.show(ti),
+                      construct="random test_indices [%s]" % tag)
+    ctx.floor("R16.3", "scenarios in which the random split reaches train_test_split", n_split_scen, 2)
+
+
+def _is_range_from(text, b):
+    try:
+        n = ast.parse(text, mode="eval").body
+    except SyntaxError:
+        return False
+    ends = ("len(self.decisions)",)
+
+    def rng(c):
+        return isinstance(c, ast.Call) and ast.unparse(c.func) == "range" and len(c.args) == 2 and \
+            " ".join(ast.unparse(c.args[0]).split()) == b and ast.unparse(c.args[1]) in ends
+    if isinstance(n, ast.Call) and ast.unparse(n.func) == "list" and len(n.args) == 1 and rng(n.args[0]):
+        return True
+    if isinstance(n, ast.Call) and ast.unparse(n.func) == "np.arange" and len(n.args) == 2 and \
+            " ".join(ast.unparse(n.args[0]).split()) == b and ast.unparse(n.args[1]) in ends:
+        return True
+    if isinstance(n, ast.ListComp) and len(n.generators) == 1 and not n.generators[0].ifs and \
+            isinstance(n.elt, ast.Name) and isinstance(n.generators[0].target, ast.Name) and \
+            n.elt.id == n.generators[0].target.id and rng(n.generators[0].iter):
+        return True
+    return False
 
 
 def check_stats(ctx):
@@ -501,18 +550,21 @@ def check_stats(ctx):
               "origin", run.node, run, "calls %s" % seen, construct="_set_stats calls in run")
     # one schema for all statistics records
     keysets = []
-    for fn in (prog.method("Simulator", "get_stats"), prog.method("Simulator", "get_arm_stats"),
-               prog.function("simulator", "default_evaluator")):
-        ctx.saw_fn(fn)
+    # every statistics record literal of the simulator module, wherever it is written (the three producers today;
+    # a helper that builds the empty or the computed record counts as well)
+    sim_mod = prog.modules["simulator"]
+    producers = list(sim_mod.functions.values()) + [m for c in sim_mod.classes.values() for m in c.methods.values()]
+    for fn in producers:
         for d in ast.walk(fn.node):
             if isinstance(d, ast.Dict) and d.keys and all(isinstance(k, ast.Constant) for k in d.keys) and \
                     "count" in [k.value for k in d.keys]:
                 keysets.append((fn, d, tuple(k.value for k in d.keys)))
     base = keysets[0][2] if keysets else ()
     for fn, d, ks in keysets:
+        ctx.saw_fn(fn)
         ctx.check(set(ks) == set(base), "R16.4", "statistics record of %s has the common key set" % fn.qualname, d, fn,
                   "keys %s vs %s" % (ks, base))
-    ctx.floor("R16.4", "statistics record literals", len(keysets), 3)
+    ctx.floor("R16.4", "statistics record literals", len(keysets), 2)
     # per-bandit result lists are accumulated in order: X[name] = X[name] + new
     n = 0
     for meth in ("_offline_test_bandits", "_online_test_bandits_chunks"):
